@@ -15,7 +15,7 @@ from sim import forkpool, kernel
 from sim.kernel import HARNESS, PASS, REJECTED, VIOLATION
 
 EVIDENCE_DIR = os.path.join(kernel.VERIF_ROOT, "evidence")
-REPLAY_DIR = os.path.join(kernel.VERIF_ROOT, "replays")
+REPLAY_DIR = os.environ.get("VERIF_REPLAY_DIR") or os.path.join(kernel.VERIF_ROOT, "replays")
 FINDINGS_FILE = os.path.join(kernel.VERIF_ROOT, "known_findings.json")
 
 
@@ -232,6 +232,10 @@ def run_batch(world, tier, base_seed, n_runs, budget_s, workers=16, timeout=180.
             sigs.add(r.get("sig", ""))
         if r["status"] == PASS and len(samples) < 3 and r.get("nontrivial"):
             samples.append({"seed": plans[idx]["seed"], "plan": plans[idx], "events": r.get("nevents", 0)})
+        for fid, cnt in (r.get("known") or {}).items():
+            f = next((x for x in findings if x["id"] == fid), None)
+            if f is not None:
+                known_hits.setdefault(fid, [f, 0])[1] += cnt
         if r["status"] == VIOLATION:
             f = match_finding(findings, prop, r)
             if f is not None:
